@@ -12,8 +12,8 @@ Ev == Tr[l]
 Keys == {<<Tr[i].scen, Tr[i].cfg>> : i \in 1..Len(Tr)}
 None == <<-1, -1>>
 TInit == l = 1 /\ memo = [k \in Keys |-> None] /\ nhit = 0
-\* strict windows: the objects scenario, thread create/exit, and the window around a whole thread that ran a lifecycle after the process had
-\* already run it once (so neither per-thread state nor a one-time process-wide cache is mistaken for a leak)
+\* strict windows: thread create/exit, and the window around a whole fresh thread that ran a scenario (objects, polynomial routines, a lifecycle) after the
+\* process had already run it once (so neither per-thread state nor a one-time process-wide cache is mistaken for a leak)
 Clean == /\ (Ev.strict = 1 => Ev.live_bytes = 0 /\ Ev.live_blocks = 0)   \* released
          /\ Ev.damaged = 0 /\ Ev.dfree = 0                          \* no out-of-bounds write into a red zone, no double free
          /\ Ev.okbits = Ev.bits                                     \* results are the plaintext results
